@@ -100,6 +100,11 @@ def lib():
         import pytorch_wavelets.dtcwt.data  # noqa
     except ImportError:
         pass
+    for opt in ("pytorch_wavelets.dtcwt.lowlevel2", "pytorch_wavelets.dwt.swt_inverse"):
+        try:    # optional modules nothing imports by default; part of the library all the same
+            __import__(opt)
+        except Exception:  # noqa
+            pass
 
     class NS:
         pass
@@ -112,6 +117,7 @@ def lib():
     ns.dwt_t1 = dwt_t1
     ns.dt_t2 = dt_t2
     ns.scat = scat
+    ns.ll2 = sys.modules.get("pytorch_wavelets.dtcwt.lowlevel2")
     ns.orig_resource_stream = coeffs.__dict__.get("resource_stream")
     _lib = ns
     # every run starts with a full gc.collect(); with torch/numpy imported that
